@@ -4,16 +4,16 @@ import numpy as np
 from vlib import caseio, gen
 
 ID = "C03"
-COQ_TARGETS = ["C03_Extract.vo"]
+COQ_TARGETS = ["C03_Extract.vo", "C03_Proofs.vo", "C03_Circular.vo"]
 EXTRACTED = "C03_model"
 DRIVER = "drv_C03.ml"
 HARNESS = "h_C03.cpp"
-VARIANTS = {"quick": ["O1"], "thorough": ["O1", "asan"]}
+VARIANTS = {"quick": ["O1", "assert"], "thorough": ["O1", "assert", "asan"]}
 AXIOMS_ALLOWED = []
 REQUIRED_THEOREMS = ["C03_weights_sum", "C03_sigma_moments_linear", "C03_affine_exact", "C03_affine_exact_augmented",
                      "C03_affine_exact_additive", "C03_failure_propagates"]
 RULE = ("cases drawn from one seeded stream: kinds weights (n 1..12) and ut with layouts linear / Euler-circular (no-wrap and wrap) / "
-        "quaternion, each with or without an appended noise block (augmentWithNoise, 1..3 rows), components 1..3, dof <= 11, "
+        "quaternion, each with or without an appended noise block (augmentWithNoise, 1..3 rows; also applied a second time to the already augmented mixture), components 1..3, dof <= 11, "
         "covariances Q diag(s) Q^T PSD with distinct spectrum incl. rank-deficient and zero, alpha in [0.1,2], beta in [0,3], kappa in [0,3], "
         "all five unscented_transform overloads, affine maps (rectangular, rank-deficient, zero), failing evaluations; "
         "non-trivial = components >= 2 or noise block or non-linear layout or singular covariance or failing evaluation; "
@@ -138,6 +138,8 @@ def gen_ut(rng, k, tier):
     cls = rng.choice(["linear", "linear", "linear", "euler_nowrap", "euler_wrap", "quat"])
     comps = rng.randint(1, 3)
     q = rng.choice([0, 0, 1, 2, 3])
+    q2 = rng.choice([0, 0, 0, 1, 2]) if q > 0 else 0     # a second augmentWithNoise on the already augmented mixture
+    q1, q = q, q + q2
     alpha = rng.choice([0.1, 1.0, 2.0, rng.uniform(0.1, 2.0), rng.uniform(0.1, 2.0)])
     beta = rng.choice([0.0, 2.0, rng.uniform(0.0, 3.0)])
     kappa = rng.choice([0.0, 0.0, rng.uniform(0.0, 3.0)])
@@ -211,19 +213,12 @@ def gen_ut(rng, k, tier):
         b = np.zeros((p, 1)); b[:olin] = gen.matrix(rng, olin, 1, 2.0)
         kindA = "quat"
     p_, pc, _ = dims(*olay)
-    if fail and overload == 4:
-        # the additive measurement overload adds the noise covariance into the default 1x1 output before
-        # reporting the failure (DESIGN.md §6 F-ut-invalid, C14): only a shape for which that is within
-        # bounds (one component, 1x1 noise covariance) is exercised here
-        if pc == 1:
-            comps = 1
-        else:
-            overload = 3
     # ---- beliefs
     top = 10 ** rng.uniform(-2, 1)
     lim = 1.0
     covs, means, deficits = [], [], []
-    Qaug = psd_distinct(rng, q, rng.choice([q, q, max(0, q - 1)]), 10 ** rng.uniform(-2, 0.5)) if q else np.zeros((0, 0))
+    Qaug = psd_distinct(rng, q1, rng.choice([q1, q1, max(0, q1 - 1)]), 10 ** rng.uniform(-2, 0.5)) if q1 else np.zeros((0, 0))
+    Qaug2 = psd_distinct(rng, q2, q2, 10 ** rng.uniform(-2, 0.5)) if q2 else np.zeros((0, 0))
     for i in range(comps):
         rank = rng.choice([dc0, dc0, dc0, max(0, dc0 - 1), max(0, dc0 - 2), 0])
         P = psd_distinct(rng, dc0, rank, top * 10 ** rng.uniform(-0.5, 0))
@@ -243,21 +238,21 @@ def gen_ut(rng, k, tier):
     if cls != "linear":
         # spreads: every sigma offset on a circular row (input and output) stays below `lim` rad,
         # and the covariance itself small enough for a positive resultant / dominant mean quaternion
-        lam = max([np.linalg.eigvalsh(P).max() if P.size else 0.0 for P in covs] + [np.linalg.eigvalsh(Qaug).max() if q else 0.0] + [1e-300])
+        lam = max([np.linalg.eigvalsh(P).max() if P.size else 0.0 for P in covs] + [np.linalg.eigvalsh(Qaug).max() if q1 else 0.0] + [np.linalg.eigvalsh(Qaug2).max() if q2 else 0.0] + [1e-300])
         rown = max(1.0, float(np.max(np.linalg.norm(J, axis=1))) if J.size else 1.0)
         s = min(1.0, lim * lim / (c * lam * rown * rown), 0.25 / lam)
-        covs = [P * s for P in covs]; Qaug = Qaug * s
+        covs = [P * s for P in covs]; Qaug = Qaug * s; Qaug2 = Qaug2 * s
     N = psd_distinct(rng, pc, pc, 10 ** rng.uniform(-2, 0))
     wmag = max(abs(1 - dc / c) + abs(1 - alpha * alpha + beta), 1 / (2 * c), 1.0)
-    meta = {"cls": cls, "lin": lin, "circ": circ, "quat": quat, "aug": q, "comps": comps, "overload": overload, "fail": fail,
+    meta = {"cls": cls, "lin": lin, "circ": circ, "quat": quat, "aug": q, "aug2": q2, "comps": comps, "overload": overload, "fail": fail,
             "alpha": "%.4g" % alpha, "beta": "%.4g" % beta, "kappa": "%.4g" % kappa, "kindA": kindA,
             "deficit": max(deficits), "wmag": "%.4g" % wmag, "c": "%.6g" % c}
     cs = caseio.Case(k, "ut", meta)
     cs.int("lin", lin).int("circ", circ).int("quat", quat).int("out_lin", olay[0]).int("out_circ", olay[1]).int("out_quat", olay[2])
-    cs.int("aug", q).int("overload", overload).int("fail", fail)
+    cs.int("aug", q1).int("aug2", q2).int("overload", overload).int("fail", fail)
     cs.mat("params", np.array([[alpha, beta, kappa]]))
     cs.mat_shape("means", d0, comps, np.hstack(means)).mat_shape("covs", dc0, dc0 * comps, np.hstack(covs) if dc0 else None)
-    cs.mat_shape("Qaug", q, q, Qaug).mat_shape("A", p_, d, A).mat_shape("b", p_, 1, b).mat_shape("N", pc, pc, N).mat_shape("J", pc, dc, J)
+    cs.mat_shape("Qaug", q1, q1, Qaug).mat_shape("Qaug2", q2, q2, Qaug2).mat_shape("A", p_, d, A).mat_shape("b", p_, 1, b).mat_shape("N", pc, pc, N).mat_shape("J", pc, dc, J)
     return cs
 
 
@@ -280,13 +275,13 @@ def nontrivial(c):
     if c.kind == "weights":
         return None
     if int(m["comps"]) >= 2 or int(m["aug"]) > 0 or m["cls"] != "linear" or int(m["deficit"]) > 0 or int(m["fail"]):
-        return (m["cls"], m["lin"], m["circ"], m["aug"], m["comps"], m["overload"], m["deficit"], m["fail"])
+        return (m["cls"], m["lin"], m["circ"], m["aug"], m.get("aug2", "0"), m["comps"], m["overload"], m["deficit"], m["fail"])
     return None
 
 
 # ------------------------------------------------------------------ shared evaluation
 def layouts(c):
-    lin, circ, quat, q = c.get("lin"), c.get("circ"), c.get("quat"), c.get("aug")
+    lin, circ, quat, q = c.get("lin"), c.get("circ"), c.get("quat"), c.get("aug") + (c.get("aug2") if c.has("aug2") else 0)
     return (lin, circ, quat, 0), (lin, circ, quat, q), (c.get("out_lin"), c.get("out_circ"), c.get("out_quat"), 0)
 
 
@@ -296,12 +291,15 @@ def augmented(c):
     d0, dc0, _ = dims(*lay0); q = lay[3]
     means, covs = c.get("means"), c.get("covs")
     comps = means.shape[1]
-    Qa = c.get("Qaug")
+    q1 = c.get("aug"); q2 = q - q1
+    Qa = c.get("Qaug"); Qb = c.get("Qaug2") if q2 else None
     ms, Ps = [], []
     for i in range(comps):
         P = covs[:, i * dc0:(i + 1) * dc0]
         if q:
-            Pa = np.zeros((dc0 + q, dc0 + q)); Pa[:dc0, :dc0] = P; Pa[dc0:, dc0:] = Qa
+            Pa = np.zeros((dc0 + q, dc0 + q)); Pa[:dc0, :dc0] = P; Pa[dc0:dc0 + q1, dc0:dc0 + q1] = Qa
+            if q2:
+                Pa[dc0 + q1:, dc0 + q1:] = Qb
             ms.append(np.concatenate([means[:, i], np.zeros(q)])); Ps.append(Pa)
         else:
             ms.append(means[:, i].copy()); Ps.append(P)
@@ -485,7 +483,7 @@ def oracle(c, impl, model):
 
 def histogram(cases):
     h = {}
-    for key in ("cls", "overload", "aug", "comps", "fail", "deficit", "kindA"):
+    for key in ("cls", "overload", "aug", "aug2", "comps", "fail", "deficit", "kindA"):
         hk = {}
         for c in cases:
             if key in c.meta:
